@@ -80,6 +80,9 @@ def _run_variant(args):
     except SyntaxError as e:
         return (v.name, v.kind, "stale", f"variant does not compile: {e}")
     try:
+        from . import loader as _loader
+
+        _loader.set_inline_for(prop)
         repo = Repo(repo_root, overlay)
         ctx = Ctx(prop, repo, "quick", 0, quiet=True)
         try:
